@@ -205,7 +205,9 @@ fn new_line_state(
     let (prefix_char, prefix, in_merge_conflict) = match diff_type.clone() {
         Unified => (new_line.chars().next(), None, None),
         Combined(Number(n_parents), in_merge_conflict) => {
-            let prefix = &new_line[..min(n_parents, new_line.len())];
+            // The prefix region may contain (part of) a multi-byte character, in which case
+            // this is not a hunk line.
+            let prefix = new_line.get(..min(n_parents, new_line.len()))?;
             let prefix_char = match prefix.chars().find(|c| c == &'-' || c == &'+') {
                 Some(c) => Some(c),
                 None => match prefix.chars().find(|c| c != &' ') {
